@@ -201,7 +201,7 @@ def run_apply(idx, rng, sh):
         sh.count('companion_section_pairs')
     got = di.debug_info_sec.stream.getvalue()
     if got != want:
-        k = next(i for i, (a, b) in enumerate(zip(got, want)) if a != b)
+        k = next((i for i, (a, b) in enumerate(zip(got, want)) if a != b), min(len(got), len(want)) - 1)
         hit = [r for r in relocs if r[0] <= k < r[0] + table[r[2]][0]]
         t = hit[-1][2] if hit else None
         raise Bad('relocated bytes differ (%s type %s %s, %s in-place)' % (name, t, table[t][1] if t is not None else 'untouched byte',
@@ -314,6 +314,9 @@ def run_relr(idx, rng, sh):
         if s.num_relocations() != len(want):
             raise Bad('RELR num_relocations', got=s.num_relocations(), want=len(want))
     poison([st], rng)
+    if rng.random() < 0.5:
+        for _ in zip(range(rng.choice([1, 3])), s.iter_relocations()):
+            pass
     got = [r['r_offset'] for r in PoisonedIter(s.iter_relocations(), [st], rng, sh.counters)]
     if got != want:
         k = next((i for i, (a, b) in enumerate(zip(got, want)) if a != b), min(len(got), len(want)))
@@ -387,9 +390,16 @@ def run_tables(idx, rng, sh):
     if s.num_relocations() != n or s.is_RELA() != rela:
         raise Bad('relocation section count/flavour')
     poison([st], rng)
+    if rng.random() < 0.5:
+        # a walk given up after one or two entries, then the full walk of the same object
+        for _ in zip(range(rng.choice([1, 2])), s.iter_relocations()):
+            pass
+        sh.count('relocation_walks_after_an_abandoned_walk')
     got = [dig(r) for r in PoisonedIter(s.iter_relocations(), [st], rng, sh.counters)]
     if got != [want(r) for r in recs]:
-        k = next(i for i, (a, b) in enumerate(zip(got, [want(r) for r in recs])) if a != b)
+        k = next((i for i, (a, b) in enumerate(zip(got, [want(r) for r in recs])) if a != b), None)
+        if k is None:
+            raise Bad('relocation walk yields %s entries than the table holds' % ('fewer' if len(got) < len(recs) else 'more'), got=len(got), want=len(recs))
         raise Bad('relocation entries differ (%s, class %d, %s)' % ('MIPS64 layout' if mips64 else 'RELA' if rela else 'REL', cls, 'LSB' if le else 'MSB'),
                   got=got[k], want=want(recs[k]))
     for i in ([0, n - 1] if n else []):
